@@ -936,6 +936,31 @@ fn find_op_body(file: &syn::File, op: &str, arity: usize) -> Result<Block, Strin
     Err(format!("fn `{}` not found in module `{}`", op, op))
 }
 
+/// combine: the body of `impl Unwrap for (Option<A>, ..)`'s `unwrap` for the given arity
+fn find_unwrap_body(file: &syn::File, arity: usize) -> Option<Block> {
+    let m = find_mod(&file.items, "combine")?;
+    for it in &m.content.as_ref()?.1 {
+        if let Item::Impl(im) = it {
+            let is_unwrap = im.trait_.as_ref().map(|t| t.1.segments.last().map(|s| s.ident == "Unwrap").unwrap_or(false)).unwrap_or(false);
+            if !is_unwrap {
+                continue;
+            }
+            if let syn::Type::Tuple(t) = &*im.self_ty {
+                if t.elems.len() == arity {
+                    for ii in &im.items {
+                        if let syn::ImplItem::Fn(f) = ii {
+                            if f.sig.ident == "unwrap" {
+                                return Some(f.block.clone());
+                            }
+                        }
+                    }
+                }
+            }
+        }
+    }
+    None
+}
+
 fn run_pass(body: &Block, labels: Option<Vec<String>>) -> Rewriter {
     let mut rw = Rewriter::new(labels);
     let stmts = body.stmts.clone();
@@ -1034,6 +1059,15 @@ fn main() {
             "cells": h.cells.iter().map(|(n, k)| serde_json::json!({"name": n, "kind": k})).collect::<Vec<_>>(),
             "trace_events": h.trace_events, "loops": h.loops,
         }));
+    }
+    if op == "combine" {
+        match find_unwrap_body(&file, arity) {
+            Some(b) => {
+                let body: TokenStream = b.stmts.iter().map(|s| s.to_token_stream()).collect();
+                handlers.push(serde_json::json!({ "label": "unwrap_impl", "kind": "fn", "params": ["self"], "body": rustfmt(&body.to_string()), "cells": [], "trace_events": 0, "loops": 0 }));
+            }
+            None => fail(format!("impl Unwrap for a {}-tuple not found", arity)),
+        }
     }
     let out = serde_json::json!({ "op": op, "arity": arity, "expanded": src, "labels": labels, "handlers": handlers });
     println!("{}", serde_json::to_string_pretty(&out).unwrap());
